@@ -33,6 +33,10 @@ SUMMARY = {
 'c08h':'table variant batches replacements of back-to-back matches in a 4 KiB scratch buffer and writes replacements >= 4 KiB straight through without flushing the batch first: a huge replacement overtakes the small one before it',
 'c17j':'AhoCorasick::try_find memoises its last miss in an Arc shared by clones, keyed by haystack address, length, span and first/last byte (not by anchored mode or contents): a later find on an overwritten buffer or after an anchored miss returns None',
 'c18i':'the automaton state is reset to the start state when a fill fails: polling on after a transient read error that lands inside a partial match loses that match or invents one',
+'c07i':'rolls are held off until the buffer holds more than 8*min bytes (strict >): with capacity exactly 8*min (longest pattern >= 8 KiB, shipped formula) it never rolls, reads into an empty slice and takes Ok(0) as EOF',
+'c08i':'non-match chunks shorter than 1 KiB are coalesced in a pending buffer; chunks >= 1 KiB are written straight through without flushing it first: bytes come out reordered',
+'c17k':'rare-byte prefilters remember scans that skipped >= 4096 bytes, keyed by haystack address only: a later search over different bytes at the same address skips real matches',
+'c18j':'for patterns >= 256 bytes fill() tops the buffer up in a second loop that treats Ok(0) and Err alike as "stop": a transient read error inside it vanishes',
 'c18a':'fill returns Ok(true) instead of the error when it had already buffered bytes in the same call: one-shot read errors during the initial fill vanish',
 'c18b':'closure errors of kind Interrupted are retried by calling the closure again: error swallowed, partial output duplicated',
 'c18c':'fill commits its new end only after the loop: an error on a later read of one fill discards bytes accepted earlier; polling on shifts all later offsets',
@@ -50,6 +54,8 @@ for line in sorted(open(os.path.join(ROOT, 'mutants/RESULTS-seeded.txt'))):
     m = re.search(r'\| (C\d\d) exit=(\d) class=(\S+) replay_exit=(\S+)', line)
     if not m: continue
     engine = {'C07': 'streamsim', 'C08': 'streamsim', 'C18': 'streamsim fault enumeration', 'C17': 'threadsim'}[m.group(1)]
+    if name == 'c17k':
+        engine = 'threadsim (after adding sparse multi-kilobyte haystack pairs through a reused buffer; first missed: no haystack had a 4 KiB gap without pattern bytes)'
     if name == 'c08h':
         engine = 'streamsim (after adding 1-70 KiB replacement tables; first missed: replacements were <= 50 bytes)'
     if name == 'c17i':
